@@ -14,6 +14,7 @@ type stCase struct {
 
 var stCases = []stCase{
 	{"T1", true}, {"T3", false}, {"T4", false}, {"T5", true}, {"T6", false}, {"T7", false}, {"T8", true}, {"T9", false},
+	{"T10", true}, {"T11", true}, {"T12", false},
 }
 
 func runSelftest() int {
@@ -53,6 +54,19 @@ func runSelftest() int {
 			bad++
 		}
 		fmt.Printf("selftest %s: %s (violation=%v expected=%v paths=%d unsupported=%v engine=%v bounds=%v)\n", c.fn, status, got, c.violation, st.Paths, st.Unsupported, st.EngineErrors, st.BoundHits)
+	}
+	// resource bounds: an allocating endless loop must end as a bound hit, not as a pass
+	if fn := p.Func("T13"); fn != nil {
+		cfg := defaultConfig()
+		cfg.Workers = 1
+		cfg.MaxSteps = 1_000_000
+		st := Explore(ld, fn, cfg)
+		if len(st.BoundHits) == 0 || len(st.Violations) > 0 || st.Completed > 0 {
+			fmt.Printf("selftest T13: FAILED (bounds=%v completed=%d)\n", st.BoundHits, st.Completed)
+			bad++
+		} else {
+			fmt.Printf("selftest T13: ok (cut by: %v)\n", st.BoundHits)
+		}
 	}
 	// differential corpus: engine (concrete mode) against the natively compiled code
 	spec := &Spec{Package: "github.com/lmorg/murex/zzverif/selftest", Files: map[string]string{
